@@ -54,6 +54,7 @@ def check(run):
     from ..rules import sqtol
     sqtol.check(run, P, ("uxarray/grid/geometry.py", "uxarray/grid/arcs.py", "uxarray/grid/intersections.py", "uxarray/grid/utils.py", "uxarray/grid/coordinates.py"))
     _edge_extremes(run, P)
+    _skip_tolerance(run, P)
     _box_growth(run, P)
     _extreme(run, P)
     _closing_edge_swap(run, P)
@@ -502,3 +503,31 @@ def _closing_edge_swap(run, P):
         run.holds("F-PATH/closing-edge", c, where(f, first[0]), "the swap position is the first fill value of each sub-array")
     else:
         run.incomplete("F-PATH/closing-edge", c, where(f), "how the swap position is found is not recognised")
+
+
+def _skip_tolerance(run, P):
+    """An arc's extreme latitude may be left out of the box only when it coincides with an end node's latitude.  "Coincides" has to be an ABSOLUTE comparison at the
+    library's tolerance: numpy's default relative tolerance (rtol=1e-5) on a latitude of order 1 is 1e-5 rad, more than the whole bulge of an edge shorter than about a
+    degree, so with the default every short arc is taken to have no bulge and the reported bound does not enclose it."""
+    f = P.func(f"{GEO}:_populate_face_latlon_bound")
+    n = 0
+    for call in ast.walk(f.node):
+        if not (isinstance(call, ast.Call) and (dotted(call.func) or [""])[-1] in ("isclose", "allclose")):
+            continue
+        txt = norm(call)
+        if not ("lat_max" in txt or "lat_min" in txt):
+            continue
+        n += 1
+        c = f"{f.key}:skip-test[{norm(call.args[0])[:20]},{norm(call.args[1])[:10]}]"
+        rt = next((k.value for k in call.keywords if k.arg == "rtol"), call.args[2] if len(call.args) > 2 else None)
+        if rt is None:
+            run.violation("F-PATH/extreme-skip-tolerance", c, where(f, call), f"`{txt[:70]}` leaves rtol at numpy's default 1e-5: an extreme latitude within 1e-5*|lat| of an end node's latitude is not inserted, "
+                          "which is the whole bulge of a short arc - the bound does not enclose the edge")
+        elif (isinstance(rt, ast.Constant) and isinstance(rt.value, (int, float)) and rt.value <= 1e-8) or (isinstance(rt, ast.Name) and rt.id in ("ERROR_TOLERANCE", "MACHINE_EPSILON")):
+            run.holds("F-PATH/extreme-skip-tolerance", c, where(f, call), f"rtol={norm(rt)}")
+        elif isinstance(rt, ast.Constant):
+            run.violation("F-PATH/extreme-skip-tolerance", c, where(f, call), f"rtol={norm(rt)} is far above the library's tolerance: extremes within that relative distance of a corner latitude are dropped")
+        else:
+            run.incomplete("F-PATH/extreme-skip-tolerance", c, where(f, call), f"rtol={norm(rt)[:40]} not evaluated")
+    run.floor("F-PATH/extreme-skip-tolerance", n, 4)
+
